@@ -89,6 +89,7 @@ def digest_model(model, reaction) -> dict:
     }
     d = {k: _h(v) for k, v in out.items()}
     d["intensity_sorted_pools"] = _h(_sorted_pools(model.intensity))
+    d["amp_unordered"] = _h(";".join(sorted(sp.srepr(k) + "=>" + sp.srepr(v) for k, v in model.amplitudes.items())))
     d["kin_unordered"] = _h(";".join(sorted(sp.srepr(k) + "=>" + sp.srepr(v) for k, v in model.kinematic_variables.items())))
     d["n_kin"] = len(model.kinematic_variables)
     d["kin_keys"] = [s.name for s in model.kinematic_variables]
@@ -431,6 +432,28 @@ def topology_maps(rname: str) -> list[dict[str, str]]:
 # ------------------------------------------------------------------------------------ worker
 
 
+GAP_REACTIONS = ["chic0_omega_phi", "etac_LLbar"]  # reactions with outer helicity combinations without transition
+
+
+def intensity_atoms(model) -> list:
+    """The set `atoms(sp.Indexed)` of the unfolded intensity, in ITS iteration order
+    (what `__define_missing_amplitudes` walks over)."""
+    import sympy as sp
+
+    from ampform.sympy import PoolSum
+
+    try:
+        from ampform.helicity import _unfold_poolsums
+
+        expr = _unfold_poolsums(model.intensity)
+    except ImportError:
+        expr = model.intensity.evaluate()
+        for node in sp.postorder_traversal(expr):
+            if isinstance(node, PoolSum):
+                expr = expr.xreplace({node: node.evaluate()})
+    return list(expr.atoms(sp.Indexed))
+
+
 def hash_order_fingerprint(reactions: list[str]) -> dict:
     """Iteration orders of the hash-ordered containers formulate() is known to walk over: the
     adapter's topology set and sets of sympy numbers (used to pick hash seeds that differ)."""
@@ -448,6 +471,15 @@ def hash_order_fingerprint(reactions: list[str]) -> dict:
         ad.permutate_registered_topologies()
         tops = getattr(ad, "_HelicityAdapter__topologies", ad.registered_topologies)
         fp["permuted:" + r] = [pool.index(t) for t in tops]
+    for r in GAP_REACTIONS:
+        if r in reactions:
+            try:
+                import ampform
+
+                model = ampform.get_builder(fresh_reaction(r)).formulate()
+                fp["indexed-atoms:" + r] = [str(a) for a in intensity_atoms(model)]
+            except Exception as e:  # noqa: BLE001
+                fp["indexed-atoms:" + r] = ["error:" + type(e).__name__]
     fp["half-integers"] = [str(x) for x in {sp.Rational(-1, 2), sp.Rational(1, 2)}]
     fp["half-integers-3/2"] = [str(x) for x in {sp.Rational(-3, 2), sp.Rational(-1, 2), sp.Rational(1, 2), sp.Rational(3, 2)}]
     fp["integers"] = [str(x) for x in {sp.Integer(-1), sp.Integer(0), sp.Integer(1)}]
